@@ -185,21 +185,22 @@ Fixpoint fmt_frac (prec : nat) (v : N) (print : bool) (acc : str) : str * N :=
       fmt_frac p (v / 10) print' (if print' then (48 + dg) :: acc else acc)
   end.
 
+Definition dur_body (u : N) : str :=
+  if u <? 1000000000 then
+    if u =? 0 then [48; 115]
+    else if u <? 1000 then format_uint u ++ [110; 115]
+    else if u <? 1000000 then let '(fr, u') := fmt_frac 3 u false [] in format_uint u' ++ fr ++ [181; 115]
+    else let '(fr, u') := fmt_frac 6 u false [] in format_uint u' ++ fr ++ [109; 115]
+  else
+    let '(fr, secs) := fmt_frac 9 u false [] in
+    let s_part := format_uint (secs mod 60) ++ fr ++ [115] in
+    let mins := secs / 60 in
+    if 0 <? mins then
+      let m_part := format_uint (mins mod 60) ++ [109] in
+      let hours := mins / 60 in
+      if 0 <? hours then format_uint hours ++ [104] ++ m_part ++ s_part else m_part ++ s_part
+    else s_part.
+
 Definition dur_string (z : Z) : str :=
-  let u := Z.to_N (Z.abs z) in
-  let body :=
-    if u <? 1000000000 then
-      if u =? 0 then [48; 115]
-      else if u <? 1000 then format_uint u ++ [110; 115]
-      else if u <? 1000000 then let '(fr, u') := fmt_frac 3 u false [] in format_uint u' ++ fr ++ [181; 115]
-      else let '(fr, u') := fmt_frac 6 u false [] in format_uint u' ++ fr ++ [109; 115]
-    else
-      let '(fr, secs) := fmt_frac 9 u false [] in
-      let s_part := format_uint (secs mod 60) ++ fr ++ [115] in
-      let mins := secs / 60 in
-      if 0 <? mins then
-        let m_part := format_uint (mins mod 60) ++ [109] in
-        let hours := mins / 60 in
-        if 0 <? hours then format_uint hours ++ [104] ++ m_part ++ s_part else m_part ++ s_part
-      else s_part in
-  if (z <? 0)%Z then 45 :: body else body.
+  let u := Z.to_N (Z.abs z) in            (* uint64(d), negated when d < 0 *)
+  if (z <? 0)%Z then 45 :: dur_body u else dur_body u.
